@@ -1,7 +1,11 @@
 import Oracle.Proto
-/-! Oracle suites of property C01 (registered in Oracle/Main.lean through `suites`). -/
+import Oracle.Mailbox
+/-! Oracle suites of property C01 (shared with C02). -/
 namespace Oracle.C01
 
-def suites : List (String × Suite) := []
+def suites : List (String × Suite) := [
+  ("mailbox", Oracle.Mailbox.model),
+  ("mailbox-judge-c01", Oracle.Mailbox.judge true)
+]
 
 end Oracle.C01
